@@ -173,6 +173,10 @@ def roundtrip(cd, lenient_code=False):
         again = CodeData.from_json_data(parsed)          # the same document a second time
         r["repeat_eq"] = again == back and json.dumps(deep_fp(parsed), sort_keys=True) == snap
         back2 = CodeData.from_json_data(json.loads(text2))
+        # a JSON object is an unordered collection: serializers that sort keys (or emit them in any other order) write
+        # the same document
+        back3 = CodeData.from_json_data(json.loads(json.dumps(doc, allow_nan=False, sort_keys=True)))
+        back4 = CodeData.from_json_data(_reversed_keys(json.loads(text)))
         # mutating the returned document must not reach the data it came from, nor a later document
         doc_a = cd.to_json_data()
         _scribble(doc_a)
@@ -183,7 +187,7 @@ def roundtrip(cd, lenient_code=False):
         r["from_exc"] = type(ex).__name__
         return r, doc
     try:
-        r["eq"] = (back == cd) and (back2 == cd)
+        r["eq"] = (back == cd) and (back2 == cd) and (back3 == cd) and (back4 == cd)
         r["hash"] = hash(back) == hash(cd)
     except BaseException as ex:  # noqa
         r["from_exc"] = "compare:" + type(ex).__name__
@@ -203,6 +207,14 @@ def roundtrip(cd, lenient_code=False):
     except BaseException as ex:  # noqa
         r["code_exc"] = type(ex).__name__
     return r, doc
+
+
+def _reversed_keys(x):
+    if type(x) is dict:
+        return {k: _reversed_keys(x[k]) for k in reversed(list(x))}
+    if type(x) is list:
+        return [_reversed_keys(v) for v in x]
+    return x
 
 
 def _scribble(x):
@@ -598,7 +610,9 @@ def produce(path, files=(), sources=(), terms=(), max_units=800, shapes=(), ladd
             # documents from_json_data must refuse (or not): what a refusal leaves behind is the point
             good = carrier(1, "operand").to_json_data()
             for k, doc in enumerate([{}, [], None, dict(good, blocks=5), dict(good, nonsense=1), dict(good, blocks=[[{"name": 5}]]),
-                                     dict(good, type={"args": {"bogus": []}}), dict(good, blocks=[[{"name": "NOP", "arg": {"x": 1}}]])]):
+                                     dict(good, type={"args": {"bogus": []}}), dict(good, blocks=[[{"name": "NOP", "arg": {"x": 1}}]])]
+                                    + [dict(good, blocks=[[{"name": "<%d>" % q, "arg": 0}] + good["blocks"][0]]) for q in range(256)
+                                       if q not in set(__import__("dis").opmap.values())][:40]):
                 fh.write(json.dumps({"id": "bad:%s:%d" % (VER, k), "producer": VER, "raw": doc, "norm": doc}) + "\n")
                 n += 1
     return n
@@ -616,10 +630,42 @@ def load_outcomes(path_in):
         try:
             r = CodeData.from_json_data(d["raw"])
             o = "ok:" + str(hash(json.dumps(deep_fp(r), sort_keys=True)))
+            try:
+                o += "/code:" + str(hash(json.dumps(cpy.keyfp(r.to_code()), sort_keys=True)))
+            except BaseException as ex:  # noqa
+                o += "/code-exc:" + type(ex).__name__
         except BaseException as ex:  # noqa
             o = "exc:" + type(ex).__name__
         out.append([d["id"], o])
     return out
+
+
+def exotic_calls():
+    """calls on inputs no compiler produces, results ignored: what they leave behind in the process is the point
+    (C12): code objects with every opcode number the interpreter does not define, empty code, odd tables"""
+    import dis
+    from code_data import CodeData
+
+    n = 0
+    defined = set(dis.opmap.values())
+    for op in range(256):
+        if op in defined:
+            continue
+        for arg in (0, 1):
+            b = bytes([op, arg, dis.opmap["LOAD_CONST"], 0, dis.opmap["RETURN_VALUE"], 0])
+            try:
+                c = cpy.code_replace(cpy._BASE, co_code=b, co_consts=(None,), co_names=("n",), co_varnames=(), co_nlocals=0,
+                                     co_lnotab=bytes([6, 0]) if cpy.LT else b"")
+                n += 1
+                CodeData.from_code(c).to_code()
+            except BaseException:  # noqa
+                pass
+    for b in (b"", bytes([dis.opmap["RETURN_VALUE"], 0])):
+        try:
+            CodeData.from_code(cpy.code_replace(cpy._BASE, co_code=b, co_lnotab=b"")).normalize().to_json_data()
+        except BaseException:  # noqa
+            pass
+    return n
 
 
 def consume(path_in, path_out, runs):
